@@ -224,7 +224,10 @@ func (a *unsafeFilterAd) build() ecs.UnsafeFilter {
 }
 func (a *unsafeFilterAd) Query(rels []ecs.Relation) Querier {
 	f := a.build()
-	all := append(append([]ecs.Relation{}, a.rels...), rels...)
+	all := rels // the caller's slice is passed on as it is (it may be shared between goroutines)
+	if len(a.rels) > 0 {
+		all = append(append([]ecs.Relation{}, a.rels...), rels...)
+	}
 	q := &unsafeQueryAd{q: f.Query(all...), a: a}
 	return q
 }
